@@ -182,7 +182,7 @@ func cmdCheck(args []string) int {
 		}
 		params := tierParams(hs, *tier)
 		res := Explore(prog, ExploreConfig{Harness: hs.Fn, Entry: entry, Params: params, Workers: *workers, Deadline: deadline,
-			SolverMs: 30000, KeepPaths: 40, Seed: seed, MaxViol: 3, MaxSteps: hs.MaxSteps})
+			SolverMs: 1500, KeepPaths: 40, Seed: seed, MaxViol: 3, MaxSteps: hs.MaxSteps})
 		printResult(res, false)
 		ev.addHarness(res)
 		if res.Incomplete != "" {
@@ -333,7 +333,7 @@ func (e *evidence) addHarness(r *ExploreResult) {
 		"ssa_steps": r.Steps, "max_decision_depth": r.MaxDepth, "witnesses_reached": r.Reached,
 		"queries": map[string]int{"total": r.Solver.Queries, "sat": r.Solver.Sat, "unsat": r.Solver.Unsat, "unknown": r.Solver.Unknown, "feasibility": r.FeasQ, "assertion": r.AssertQ},
 		"solver_time_s": r.Solver.Time.Seconds(), "slowest_query_s": r.Solver.SlowQuery.Seconds(), "wall_s": r.Wall.Seconds(),
-		"fmt_approximations": r.FmtApprox, "byte_domain_prefilter": map[string]int{"sat": r.LocalSat, "unsat": r.LocalUnsat}, "incomplete": r.Incomplete, "violations_found": len(r.Violations),
+		"fmt_approximations": r.FmtApprox, "byte_domain_prefilter": map[string]int{"sat": r.LocalSat, "unsat": r.LocalUnsat}, "standalone_portfolio": map[string]interface{}{"queries": r.StandaloneQ, "decided": r.StandaloneOK, "time_s": r.StandaloneT.Seconds(), "solvers": "z3 4.8.12, z3 5.1.0, cvc5 1.0"}, "incomplete": r.Incomplete, "violations_found": len(r.Violations),
 	})
 }
 
